@@ -24,15 +24,6 @@ pub enum Body {
     C20(C20Scenario),
 }
 
-impl Scenario {
-    pub fn property(&self) -> &'static str {
-        match self.body {
-            Body::C19(_) => "C19",
-            Body::C20(_) => "C20",
-        }
-    }
-}
-
 // ---------------------------------------------------------------- C19
 
 #[derive(Clone, Debug, Serialize, Deserialize, PartialEq)]
@@ -338,10 +329,6 @@ impl ClientB {
             ClientB::ResetAfterRequest => "reset_after_request".into(),
             ClientB::GoneBeforeResponse => "gone_before_response".into(),
         }
-    }
-    /// sends a complete, well-formed GET and waits for the answer
-    pub fn expects_response(&self) -> bool {
-        matches!(self, ClientB::Get | ClientB::Split(_))
     }
     pub fn hostile(&self) -> bool {
         !matches!(self, ClientB::Get)
